@@ -125,6 +125,14 @@ func (dc *decorator) schemaPosB(d Doc, boost string) Doc {
 	case "readOnly", "writeOnly", "deprecated":
 		add(boost, DBool(true), "flag")
 	}
+	if len(out) == 1 && (has["$ref"] || has["$dynamicRef"]) && r.chance(1, 2) {
+		// a subschema that is nothing but a reference: any decoration makes it "more than a reference"
+		if r.chance(1, 5) {
+			add("deprecated", DBool(r.chance(1, 2)), "bare-ref")
+		} else {
+			add(pick(r, []string{"title", "$comment", "description", "x-note"}), pick(r, []Doc{DStr("t"), DStr("")}), "bare-ref")
+		}
+	}
 	for n := r.intn(3); n > 0 && r.chance(1, 2); n-- {
 		switch r.intn(14) {
 		case 0:
@@ -307,7 +315,7 @@ func init() {
 				base = append(DObj{{"$schema", DStr("http://json-schema.org/draft-07/schema#")}}, base.(DObj)...)
 			}
 		}
-		if !g.draft7 && r.chance(1, 4) {
+		if !g.draft7 && r.chance(2, 5) {
 			// several embedded resources with $dynamicRef / $ref hops between them (family dyn, no
 			// loader documents): a decoration must not change which schemas enter the dynamic scope
 			for try := 0; try < 30; try++ {
